@@ -513,6 +513,7 @@ class Rec:
         self.fkey = fkey
         self.hkey = hkey
         self.snap = None
+        self.args = None        # arguments of the creating add_* step
 
     def __repr__(self):
         return 'Rec(%s, %r, %r)' % (self.kind, self.owner,
@@ -616,6 +617,26 @@ class World:
         o = self.own(m)
         return [r for r in self.recs[si].values()
                 if r.kind == kind and r.owner[0] == 'mgr' and r.owner != o]
+
+    def twins(self, m, si, rec):
+        """
+        Servers other than si, registered with manager m like si, on which
+        m owns an instance with the same instance path as rec (instance
+        paths carry no host: same filter/destination ID, same pair).
+        """
+        if si not in m['servers'] or rec.owner != self.own(m):
+            return []
+        out = []
+        for sj in sorted(m['servers']):
+            other = self.recs[sj].get(rec.key) if sj != si else None
+            if other is not None and other.owner == rec.owner:
+                out.append(sj)
+        return out
+
+    def _twin_created(self, m, si, rec, cls):
+        if self.twins(m, si, rec):
+            cls.append('twin:created:' + rec.kind)
+            self.events.add('twin')
 
     def mgr_owned(self, si, kind):
         "records of that kind owned by any manager of the history"
@@ -818,7 +839,9 @@ class World:
         rec = Rec('dest', inst.path, self.own(m) if owned else ('perm',),
                   name=name, url=url_norm(url),
                   ptype=None if got_pt is None else int(got_pt))
+        rec.args = {'id': ident, 'url': url, 'ptype': ptype}
         self.recs[si][rec.key] = rec
+        self._twin_created(m, si, rec, cls)
         return cls + ['created:dest:' + ('owned' if owned else 'permanent')]
 
     def _check_new(self, inst, kind, name, si):
@@ -875,8 +898,12 @@ class World:
             self.fail('add_filter:query-not-stored', repr(inst))
         rec = Rec('filter', inst.path, self.own(m) if owned else ('perm',),
                   name=name)
+        rec.args = {'id': ident, 'sns': sns, 'sn': sn, 'query': query,
+                    'ql': ql}
         self.recs[si][rec.key] = rec
-        return ['created:filter:' + ('owned' if owned else 'permanent')]
+        cls = ['created:filter:' + ('owned' if owned else 'permanent')]
+        self._twin_created(m, si, rec, cls)
+        return cls
 
     def add_subs(self, mi, si, fsel, dsel, owned, cross=0):
         """
@@ -958,6 +985,7 @@ class World:
             sid, f.path, arg, owned))
         for c in created:       # also those created before a refusal
             self.recs[si][c.key] = c
+            self._twin_created(m, si, c, cls)
         if created:
             cls.append('created:sub:%s:%s-filter:%s-dest' % (
                 'owned' if owned else 'permanent',
@@ -997,6 +1025,9 @@ class World:
             removed.append(r)
         res = self.call(fn)
         for r in removed:
+            if self.twins(m, si, r):
+                cls.append('twin:removed-on-one-server:' + r.kind)
+                self.events.add('twin-removed')
             del self.recs[si][r.key]
             self.gone[si].append(r)
             cls.append('removed:%s:%s' % (r.kind, 'owned' if r.owner ==
@@ -1587,6 +1618,55 @@ class Machine:
                         'sel': w.removable(other, si, 'sub').index(b)}
         return None
 
+    def _g_twin(self, draw, mi, steer):
+        w = self.w
+        m = w.mgrs[mi]
+        o = w.own(m)
+        reg = sorted(m['servers'])
+        if len(reg) < len(w.conns):
+            if steer < 45 and [r for si in reg for r in w.recs[si].values()
+                               if r.owner == o]:
+                return {'op': 'add_server', 'm': mi,
+                        's': [i for i in range(len(w.conns))
+                              if i not in reg][0]}
+            return None
+        cands = []
+        if steer < 50:
+            # an owned instance of another server that is missing here
+            for si in reg:
+                uf = w.usable(m, si, 'filter')
+                ud = w.usable(m, si, 'dest')
+                for sj in reg:
+                    for r in w.recs[sj].values():
+                        if sj == si or r.owner != o or r.key in w.recs[si]:
+                            continue
+                        if r.kind == 'sub':
+                            f = w.recs[si].get(r.fkey)
+                            d = w.recs[si].get(r.hkey)
+                            if f in uf and d in ud:
+                                cands.append({
+                                    'op': 'add_subs', 'm': mi, 's': si,
+                                    'f': uf.index(f), 'd': ud.index(d),
+                                    'owned': True})
+                        elif r.args is not None:
+                            cands.append(dict(
+                                r.args, op='add_' + r.kind, m=mi, s=si,
+                                owned=True))
+        else:
+            # explicit removal of a twin on one server
+            for si in reg:
+                for kind, op in (('sub', 'rm_subs'), ('filter', 'rm_filter'),
+                                 ('dest', 'rm_dests')):
+                    pool = w.removable(m, si, kind)
+                    for r in pool:
+                        if w.twins(m, si, r) and (
+                                kind == 'sub' or not w.referenced(si, r)):
+                            cands.append({'op': op, 'm': mi, 's': si,
+                                          'sel': pool.index(r)})
+        if not cands:
+            return None
+        return cands[draw(_I1000) % len(cands)]
+
     def _g_step(self, draw):
         """
         The next step; the choice of the operation looks at the model so
@@ -1634,6 +1714,14 @@ class Machine:
                         mine = w.owned_recs(m, si, k)
                         step[key] = w.mgr_owned(si, k).index(
                             mine[draw(_I100) % len(mine)])
+                return step
+        if reg and not blk and ns > 1 and 30 <= steer < 65:
+            # twins: instance paths carry no host, so the same filter ID /
+            # destination ID / (filter, destination) pair on two servers
+            # gives equal paths.  Register the other server too, repeat
+            # there what the manager owns here, remove on one server only.
+            step = self._g_twin(draw, mi, steer)
+            if step is not None:
                 return step
         if reg:
             si = reg[draw(_I10) % len(reg)]
@@ -1797,6 +1885,10 @@ class Machine:
             cls.append('history:related-ids-both-created-owned')
         if restart_removal:
             cls.append('history:restart-then-removal')
+        if 'twin' in w.events:
+            cls.append('history:twin-instances-on-two-servers')
+        if 'twin-removed' in w.events:
+            cls.append('history:twin-removed-on-one-server')
         if 'blocked-cleanup' in w.events:
             cls.append('history:blocked-cleanup')
         if 'retry-after-unblock' in w.events:
